@@ -1,5 +1,5 @@
 (* C19/Properties.v -- pinned statements of property C19. *)
-From Sophia.C19 Require Import Model Proofs Config ConfigProofs.
+From Sophia.C19 Require Import Model Proofs Config ConfigProofs History HistoryProofs.
 From Sophia.gen Require Consts.
 
 Check (get_confined : forall fs exts caches iri0,
@@ -63,6 +63,45 @@ Check (reachable_get_confined : forall fs exts init ops iri0 p,
   In p (fst (get fs exts true (run_adds fs init ops) iri0)) ->
   confined_any exts (run_adds fs init ops) (hd [] (split_on c_hash iri0)) p).
 
+(* ===== loaders are values: histories over several loader values alive at once (History.v) ===== *)
+(* an operation, and a whole history, only ever modifies the loader value it targets *)
+Check (hstep_frame : forall fs exts st op j,
+  (N.to_nat j < length st)%nat -> target op <> Some j ->
+  cfg_of (fst (hstep fs exts st op)) j = cfg_of st j).
+Check (history_frame : forall fs exts ops st j,
+  (N.to_nat j < length st)%nat -> Forall (fun op => target op <> Some j) ops ->
+  cfg_of (state_after fs exts st ops) j = cfg_of st j).
+Check (clone_then_add_independent : forall fs exts st i ns t,
+  (N.to_nat i < length st)%nat ->
+  let k := N.of_nat (length st) in
+  let st1 := fst (hstep fs exts st (HClone i)) in
+  let st2 := fst (hstep fs exts st1 (HAdd k ns t)) in
+  cfg_of st1 k = cfg_of st i /\ cfg_of st2 i = cfg_of st i /\
+  cfg_of st2 k = fst (add fs (cfg_of st i) ns t)).
+(* requests have no effect, so the answer to a request depends on the configuring operations only *)
+Check (gets_are_pure : forall fs exts ops st,
+  state_after fs exts st ops = state_after fs exts st (filter (fun op => negb (is_get op)) ops)).
+Check (get_observation : forall fs exts ops st k i iri,
+  nth_error ops k = Some (HGet i iri) ->
+  nth_error (run_hist fs exts st ops) k
+  = Some (obs_of (snd (get fs exts true (cfg_of (state_after fs exts st (firstn k ops)) i) iri)))).
+Check (get_history_free : forall fs exts ops st k i iri,
+  nth_error ops k = Some (HGet i iri) ->
+  nth_error (run_hist fs exts st ops) k
+  = Some (obs_of (snd (get fs exts true
+        (cfg_of (state_after fs exts st (filter (fun op => negb (is_get op)) (firstn k ops))) i) iri)))).
+(* every loader value of a history is a configuration of Config.v's run_adds, hence well-formed *)
+Check (history_reachable : forall fs exts ops st,
+  Forall (reachable fs) st -> Forall (reachable fs) (state_after fs exts st ops)).
+Check (history_wf : forall fs exts ops i, Forall (wf_cache fs) (cfg_of (state_after fs exts [] ops) i)).
+(* confinement inside histories: with respect to the configuration of the REQUESTED loader value *)
+Check (history_found_confined : forall fs exts ops st k i iri p ct,
+  nth_error ops k = Some (HGet i iri) ->
+  nth_error (run_hist fs exts st ops) k = Some (OGot 0 p ct) ->
+  confined_any exts (cfg_of (state_after fs exts st (firstn k ops)) i) (hd [] (split_on c_hash iri)) p).
+Check (empty_loader_refuses : forall fs exts iri, snd (get fs exts true [] iri) = Unsupported).
+Check (hist_ok_spec : forall fs exts ops obs, hist_ok fs exts ops obs = true <-> run_hist fs exts [] ops = obs).
+
 Print Assumptions get_confined.
 Print Assumptions found_confined.
 Print Assumptions resolve_safe.
@@ -85,3 +124,15 @@ Print Assumptions get_found_exact.
 Print Assumptions fragment_irrelevant.
 Print Assumptions reachable_get_confined.
 Print Assumptions config_examples.
+Print Assumptions hstep_frame.
+Print Assumptions history_frame.
+Print Assumptions clone_then_add_independent.
+Print Assumptions gets_are_pure.
+Print Assumptions get_observation.
+Print Assumptions get_history_free.
+Print Assumptions history_reachable.
+Print Assumptions history_wf.
+Print Assumptions history_found_confined.
+Print Assumptions empty_loader_refuses.
+Print Assumptions hist_ok_spec.
+Print Assumptions history_example.
